@@ -93,6 +93,11 @@ def family_L(rng, n=None, max_lag=3, max_lead=2, measurement=None, unit_root=Fal
             if rng.random() < 0.7:
                 spec["mshocks"].append({"name": f"w{j}", "desc": ""})
                 terms.append(E.var(f"w{j}", 0))
+            if spec["mshocks"] and rng.random() < 0.3:
+                # a measurement shock shared with another measurement equation (non-diagonal H S_w H')
+                other = spec["mshocks"][int(rng.integers(0, len(spec["mshocks"])))]["name"]
+                if other != f"w{j}":
+                    terms.append(E.bin_("*", E.num(_r(rng, 0.3, 1.2, 2)), E.var(other, 0)))
             spec["meqs"].append({"lhs": E.var(f"ob{j}", 0), "rhs": E.add_all(terms), "steady": None, "desc": "", "eqsign": "="})
     return spec, meta
 
